@@ -709,4 +709,331 @@ theorem incremental_pruning_exact (m : Model) (hv : Valid m) (τ : Rat) (hsep : 
 /-- the identity is envelope preserving, so the hypothesis of `incremental_pruning_exact` is satisfiable -/
 example (n : Nat) : EnvPreserving n id := fun _ h => ⟨h, fun _ _ => rfl⟩
 
+
+/-! ## RTBSS -/
+
+/-- `maxR` bounds every reward (the constructor's documented meaning: "the max reward obtainable in the model") -/
+def RBound (m : Model) (maxR : Rat) : Prop := ∀ s a, s < m.S → a < m.A → m.R s a ≤ maxR
+
+theorem sumTo_comm (n k : Nat) (f : Nat → Nat → Rat) :
+    sumTo n (fun i => sumTo k (fun j => f i j)) = sumTo k (fun j => sumTo n (fun i => f i j)) := by
+  simp only [sumTo_eq]; exact Finset.sum_comm
+
+theorem sumTo_mul_right (n : Nat) (c : Rat) (f : Nat → Rat) : sumTo n (fun i => f i * c) = sumTo n f * c := by
+  rw [mul_comm, ← sumTo_mul_left]; apply sumTo_congr; intro i _; ring
+
+theorem expReward_le (m : Model) (maxR : Rat) (hR : RBound m maxR) (b : Vec) (hb : Simplex m.S b) {a : Nat} (ha : a < m.A) :
+    expReward m b a ≤ maxR := by
+  unfold expReward
+  have : sumTo m.S (fun s => m.R s a * b.get s) ≤ sumTo m.S (fun s => maxR * b.get s) :=
+    sumTo_le (fun s hs => mul_le_mul_of_nonneg_right (hR s a hs ha) (hb.1 s hs))
+  rw [sumTo_mul_left, hb.2, mul_one] at this
+  exact this
+
+/-- observation probabilities after (b, a) add up to the mass of b -/
+theorem obs_prob_sum (m : Model) (hv : Valid m) (b : Vec) {a : Nat} (ha : a < m.A) :
+    sumTo m.O (fun o => vsum m.S (updU m b a o)) = sumTo m.S b.get := by
+  have e1 : sumTo m.O (fun o => vsum m.S (updU m b a o))
+      = sumTo m.O (fun o => sumTo m.S (fun s1 => m.Ob s1 a o * sumTo m.S (fun s => b.get s * m.T s a s1))) := by
+    apply sumTo_congr; intro o _; unfold vsum
+    apply sumTo_congr; intro s1 h1; exact updU_get m b a o h1
+  rw [e1, sumTo_comm]
+  have e2 : sumTo m.S (fun s1 => sumTo m.O (fun o => m.Ob s1 a o * sumTo m.S (fun s => b.get s * m.T s a s1)))
+      = sumTo m.S (fun s1 => sumTo m.S (fun s => b.get s * m.T s a s1)) := by
+    apply sumTo_congr; intro s1 h1
+    rw [sumTo_mul_right, hv.O1 s1 a h1 ha, one_mul]
+  rw [e2, sumTo_comm]
+  apply sumTo_congr; intro s hs
+  rw [sumTo_mul_left, hv.T1 s a hs ha, mul_one]
+
+theorem vdiv_simplex (n : Nat) (u : Vec) (hu : NonNeg n u) (hp : vsum n u ≠ 0) : Simplex n (vdiv n u (vsum n u)) := by
+  refine ⟨vdiv_nonneg n u _ hu (vsum_nonneg n u hu), ?_⟩
+  have : sumTo n (vdiv n u (vsum n u)).get = sumTo n (fun s => u.get s / vsum n u) := by
+    apply sumTo_congr; intro s hs; unfold vdiv; rw [mkVec_get _ hs]
+  rw [this, sumTo_div]
+  exact div_self hp
+
+theorem absR_nonneg_eq (x : Rat) (h : 0 ≤ x) : absR x = x := by
+  unfold absR; split
+  · linarith
+  · rfl
+
+theorem qOfT_eq (m : Model) (τ : Rat) (V : Vec → Rat) (b : Vec) (a : Nat) :
+    qOfT m τ V b a = expReward m b a + rtFuture m τ V b a := rfl
+
+theorem rtFuture_congr (m : Model) (hv : Valid m) (τ : Rat) (hτ : 0 ≤ τ) (V V' : Vec → Rat)
+    (hVV : ∀ b', Simplex m.S b' → V b' = V' b') (b : Vec) (hb : NonNeg m.S b) {a : Nat} (ha : a < m.A) :
+    rtFuture m τ V b a = rtFuture m τ V' b a := by
+  unfold rtFuture
+  apply sumTo_congr; intro o ho
+  have hu := updU_nonneg m hv b hb ha ho
+  simp only []
+  split
+  · rfl
+  · rename_i hne
+    have hp : vsum m.S (updU m b a o) ≠ 0 := by
+      intro h0; apply hne; rw [h0]; simpa [absR] using hτ
+    rw [hVV _ (vdiv_simplex _ _ hu hp)]
+
+/-- the discounted future collected below (b, a) is at most `γ·B` when the continuation is at most `B ≥ 0` on beliefs -/
+theorem rtFuture_le (m : Model) (hv : Valid m) (τ : Rat) (hτ : 0 ≤ τ) (hγ : 0 ≤ m.γ) (V : Vec → Rat) (B : Rat) (hB : 0 ≤ B)
+    (hV : ∀ b', Simplex m.S b' → V b' ≤ B) (b : Vec) (hb : Simplex m.S b) {a : Nat} (ha : a < m.A) :
+    rtFuture m τ V b a ≤ m.γ * B := by
+  have hterm : sumTo m.O (fun o =>
+        if absR (vsum m.S (updU m b a o)) ≤ τ then 0
+        else m.γ * vsum m.S (updU m b a o) * V (vdiv m.S (updU m b a o) (vsum m.S (updU m b a o))))
+      ≤ sumTo m.O (fun o => m.γ * B * vsum m.S (updU m b a o)) := by
+    apply sumTo_le; intro o ho
+    have hu := updU_nonneg m hv b hb.1 ha ho
+    have hp0 := vsum_nonneg _ _ hu
+    split
+    · exact mul_nonneg (mul_nonneg hγ hB) hp0
+    · rename_i hne
+      have hp : vsum m.S (updU m b a o) ≠ 0 := by
+        intro h0; apply hne; rw [h0]; simpa [absR] using hτ
+      have := hV _ (vdiv_simplex _ _ hu hp)
+      have h2 : 0 ≤ m.γ * vsum m.S (updU m b a o) := mul_nonneg hγ hp0
+      calc m.γ * vsum m.S (updU m b a o) * V _ ≤ m.γ * vsum m.S (updU m b a o) * B := mul_le_mul_of_nonneg_left this h2
+        _ = m.γ * B * vsum m.S (updU m b a o) := by ring
+  have : rtFuture m τ V b a ≤ sumTo m.O (fun o => m.γ * B * vsum m.S (updU m b a o)) := hterm
+  rw [sumTo_mul_left, obs_prob_sum m hv b ha, hb.2, mul_one] at this
+  exact this
+
+/-- the truncated expectimax never exceeds `h · maxR` when `0 ≤ maxR`, `0 ≤ γ ≤ 1` -/
+theorem expectimaxT_le (m : Model) (hv : Valid m) (τ : Rat) (hτ : 0 ≤ τ) (hγ0 : 0 ≤ m.γ) (hγ1 : m.γ ≤ 1)
+    (maxR : Rat) (hM : 0 ≤ maxR) (hR : RBound m maxR) :
+    ∀ (h : Nat) (b : Vec), Simplex m.S b → expectimaxT m τ h b ≤ (h : Rat) * maxR := by
+  intro h
+  induction h with
+  | zero => intro b _; simp [expectimaxT]
+  | succ h ih =>
+    intro b hb
+    simp only [expectimaxT]
+    obtain ⟨a, ha, e⟩ := maxTo_attained (m.A - 1) (qOfT m τ (expectimaxT m τ h) b)
+    have haA : a < m.A := by have := hv.hA; omega
+    rw [e, qOfT_eq]
+    have hB : 0 ≤ (h : Rat) * maxR := mul_nonneg (Nat.cast_nonneg h) hM
+    have h1 := expReward_le m maxR hR b hb haA
+    have h2 := rtFuture_le m hv τ hτ hγ0 _ _ hB ih b hb haA
+    have h3 : m.γ * ((h : Rat) * maxR) ≤ 1 * ((h : Rat) * maxR) := mul_le_mul_of_nonneg_right hγ1 hB
+    push_cast; linarith
+
+/-- the `for` loop of `simulate`: provided the pruning bound is non-negative and really bounds the future term of every action,
+    after actions 0..n the loop holds the maximum of the action values and the FIRST action attaining it -/
+theorem rtLoop_spec (m : Model) (τ maxR : Rat) (V : Vec → Rat) (hprev : Nat) (b : Vec)
+    (hU0 : 0 ≤ rtUpper m maxR hprev) :
+    ∀ n, (∀ a, a ≤ n → rtFuture m τ V b a ≤ rtUpper m maxR hprev) →
+      rtLoop m τ maxR V hprev b (n+1) = ⟨some (maxTo n (qOfT m τ V b)), argmaxTo n (qOfT m τ V b)⟩ := by
+  intro n
+  induction n with
+  | zero =>
+    intro _
+    simp [rtLoop, rtStep, gtOpt, maxTo, argmaxTo, qOfT_eq]
+  | succ n ih =>
+    intro hU
+    have ihn := ih (fun a ha => hU a (by omega))
+    have hfut := hU (n+1) (le_refl _)
+    show rtStep m τ maxR V hprev b (rtLoop m τ maxR V hprev b (n+1)) (n+1) = _
+    rw [ihn]
+    have hq : qOfT m τ V b (n+1) = expReward m b (n+1) + rtFuture m τ V b (n+1) := rfl
+    have hmx := AITB.MDP.maxTo_eq_argmax n (qOfT m τ V b)
+    by_cases h1 : maxTo n (qOfT m τ V b) < expReward m b (n+1) + rtUpper m maxR hprev
+    · by_cases h2 : maxTo n (qOfT m τ V b) < qOfT m τ V b (n+1)
+      · have h2' : qOfT m τ V b (argmaxTo n (qOfT m τ V b)) < qOfT m τ V b (n+1) := by rw [← hmx]; exact h2
+        simp only [rtStep, gtOpt, h1, decide_true, if_true, ← hq, h2, maxTo, argmaxTo, h2']
+      · have h2' : ¬ qOfT m τ V b (argmaxTo n (qOfT m τ V b)) < qOfT m τ V b (n+1) := by rw [← hmx]; exact h2
+        simp only [rtStep, gtOpt, h1, decide_true, if_true, ← hq, h2, decide_false, maxTo, argmaxTo, h2']
+        simp
+    · have hle : expReward m b (n+1) + rtUpper m maxR hprev ≤ maxTo n (qOfT m τ V b) := not_lt.mp h1
+      have h3 : ¬ maxTo n (qOfT m τ V b) < expReward m b (n+1) := by
+        intro h; linarith
+      have h2 : ¬ maxTo n (qOfT m τ V b) < qOfT m τ V b (n+1) := by
+        rw [hq]; intro h; linarith
+      have h2' : ¬ qOfT m τ V b (argmaxTo n (qOfT m τ V b)) < qOfT m τ V b (n+1) := by rw [← hmx]; exact h2
+      simp only [rtStep, gtOpt, h1, decide_false, maxTo, argmaxTo, h2, h2']
+      simp
+      intro h; exact absurd h h3
+
+
+theorem rtUpper_nonneg (m : Model) (hγ0 : 0 ≤ m.γ) (maxR : Rat) (hM : 0 ≤ maxR) (h : Nat) : 0 ≤ rtUpper m maxR h :=
+  mul_nonneg (mul_nonneg hγ0 hM) (Nat.cast_nonneg h)
+
+/-- `simulate` returns the (τ-truncated) expectimax value at every belief — under `0 ≤ maxR` -/
+theorem rtSim_eq_expectimaxT (m : Model) (hv : Valid m) (τ : Rat) (hτ : 0 ≤ τ) (hγ0 : 0 ≤ m.γ) (hγ1 : m.γ ≤ 1)
+    (maxR : Rat) (hM : 0 ≤ maxR) (hR : RBound m maxR) :
+    ∀ (h : Nat) (b : Vec), Simplex m.S b → rtSim m τ maxR h b = expectimaxT m τ h b := by
+  intro h
+  induction h with
+  | zero => intro b _; rfl
+  | succ h ih =>
+    intro b hb
+    obtain ⟨k, hk⟩ : ∃ k, m.A = k + 1 := ⟨m.A - 1, by have := hv.hA; omega⟩
+    have hB : 0 ≤ (h : Rat) * maxR := mul_nonneg (Nat.cast_nonneg h) hM
+    have hfut : ∀ a, a ≤ k → rtFuture m τ (rtSim m τ maxR h) b a ≤ rtUpper m maxR h := by
+      intro a ha
+      have haA : a < m.A := by omega
+      rw [rtFuture_congr m hv τ hτ _ _ ih b hb.1 haA]
+      have := rtFuture_le m hv τ hτ hγ0 _ _ hB (expectimaxT_le m hv τ hτ hγ0 hγ1 maxR hM hR h) b hb haA
+      unfold rtUpper; linarith
+    have sp := rtLoop_spec m τ maxR (rtSim m τ maxR h) h b (rtUpper_nonneg m hγ0 maxR hM h) k hfut
+    simp only [rtSim, expectimaxT]
+    rw [hk, sp]
+    simp only [Option.getD_some]
+    have : k + 1 - 1 = k := by omega
+    rw [this]
+    apply maxTo_congr
+    intro a ha
+    rw [qOfT_eq, qOfT_eq, rtFuture_congr m hv τ hτ _ _ ih b hb.1 (by omega)]
+
+/-- FULL STATEMENT (refuted, see `rtbss_negative_maxR_counterexample`):
+      ∀ m maxR h b, Valid m → RBound m maxR → Simplex b →
+        (rtSample m τ maxR (h+1) b).2 = expectimaxT m τ (h+1) b ∧ the returned action attains it.
+    **rtbss_eq_expectimax_partial** — proved with the extra hypothesis `0 ≤ maxR` that the proof forced
+    (`discount·maxR·horizon` bounds the discounted tail only then, and a pruned action's immediate reward can exceed the
+    running maximum only when the bound is negative): `sampleAction` returns the expectimax value, and the returned action is the
+    FIRST action whose one-step lookahead attains it. -/
+theorem rtbss_eq_expectimax_partial (m : Model) (hv : Valid m) (τ : Rat) (hτ : 0 ≤ τ) (hγ0 : 0 ≤ m.γ) (hγ1 : m.γ ≤ 1)
+    (maxR : Rat) (hM : 0 ≤ maxR) (hR : RBound m maxR) (h : Nat) (b : Vec) (hb : Simplex m.S b) :
+    (rtSample m τ maxR (h+1) b).2 = expectimaxT m τ (h+1) b ∧
+    (rtSample m τ maxR (h+1) b).1 < m.A ∧
+    qOfT m τ (expectimaxT m τ h) b (rtSample m τ maxR (h+1) b).1 = expectimaxT m τ (h+1) b ∧
+    (∀ a, a < (rtSample m τ maxR (h+1) b).1 → qOfT m τ (expectimaxT m τ h) b a < expectimaxT m τ (h+1) b) := by
+  obtain ⟨k, hk⟩ : ∃ k, m.A = k + 1 := ⟨m.A - 1, by have := hv.hA; omega⟩
+  have ih := rtSim_eq_expectimaxT m hv τ hτ hγ0 hγ1 maxR hM hR h
+  have hB : 0 ≤ (h : Rat) * maxR := mul_nonneg (Nat.cast_nonneg h) hM
+  have hfut : ∀ a, a ≤ k → rtFuture m τ (rtSim m τ maxR h) b a ≤ rtUpper m maxR h := by
+    intro a ha
+    have haA : a < m.A := by omega
+    rw [rtFuture_congr m hv τ hτ _ _ ih b hb.1 haA]
+    have := rtFuture_le m hv τ hτ hγ0 _ _ hB (expectimaxT_le m hv τ hτ hγ0 hγ1 maxR hM hR h) b hb haA
+    unfold rtUpper; linarith
+  have sp := rtLoop_spec m τ maxR (rtSim m τ maxR h) h b (rtUpper_nonneg m hγ0 maxR hM h) k hfut
+  have hcongr : ∀ a, a ≤ k → qOfT m τ (rtSim m τ maxR h) b a = qOfT m τ (expectimaxT m τ h) b a := by
+    intro a ha
+    rw [qOfT_eq, qOfT_eq, rtFuture_congr m hv τ hτ _ _ ih b hb.1 (by omega)]
+  have hk1 : m.A - 1 = k := by omega
+  have e1 : (rtSample m τ maxR (h+1) b) = (argmaxTo k (qOfT m τ (expectimaxT m τ h) b), maxTo k (qOfT m τ (expectimaxT m τ h) b)) := by
+    simp only [rtSample]
+    rw [hk, sp]
+    simp only [Option.getD_some]
+    rw [AITB.MDP.argmaxTo_congr hcongr, maxTo_congr hcongr]
+  rw [e1]
+  simp only [expectimaxT, hk1]
+  refine ⟨trivial, ?_, ?_, ?_⟩
+  · have := AITB.MDP.argmaxTo_le k (qOfT m τ (expectimaxT m τ h) b); omega
+  · exact (AITB.MDP.maxTo_eq_argmax k _).symm
+  · intro a ha
+    rw [AITB.MDP.maxTo_eq_argmax k]
+    exact AITB.MDP.argmaxTo_first k _ a ha
+
+/-- with threshold 0 the truncated recursion is the property's definition -/
+theorem expectimaxT_zero (m : Model) (hv : Valid m) :
+    ∀ (h : Nat) (b : Vec), NonNeg m.S b → expectimaxT m 0 h b = expectimax m h b := by
+  intro h
+  induction h with
+  | zero => intro b _; rfl
+  | succ h ih =>
+    intro b hb
+    simp only [expectimaxT, expectimax]
+    apply maxTo_congr
+    intro a ha
+    have haA : a < m.A := by have := hv.hA; omega
+    rw [qOf_eq, qOfT]
+    congr 1
+    rw [← sumTo_mul_left]
+    apply sumTo_congr; intro o ho
+    have hu := updU_nonneg m hv b hb haA ho
+    have hp0 := vsum_nonneg _ _ hu
+    unfold obsTerm
+    simp only []
+    rw [absR_nonneg_eq _ hp0]
+    by_cases hp : vsum m.S (updU m b a o) = 0
+    · rw [if_pos hp, if_pos (le_of_eq hp)]; ring
+    · have : ¬ vsum m.S (updU m b a o) ≤ 0 := fun hle => hp (le_antisymm hle hp0)
+      rw [if_neg hp, if_neg this, ih _ (vdiv_nonneg _ _ _ hu hp0)]; ring
+
+/-- corollary at threshold 0: the property's RTBSS clause, for every POMDP, horizon ≥ 1 and belief, when `0 ≤ maxR` -/
+theorem rtbss_eq_expectimax_tau0 (m : Model) (hv : Valid m) (hγ0 : 0 ≤ m.γ) (hγ1 : m.γ ≤ 1)
+    (maxR : Rat) (hM : 0 ≤ maxR) (hR : RBound m maxR) (h : Nat) (b : Vec) (hb : Simplex m.S b) :
+    (rtSample m 0 maxR (h+1) b).2 = expectimax m (h+1) b ∧
+    qOf m (expectimax m h) b (rtSample m 0 maxR (h+1) b).1 = expectimax m (h+1) b := by
+  obtain ⟨h1, h2, h3, _⟩ := rtbss_eq_expectimax_partial m hv 0 (le_refl _) hγ0 hγ1 maxR hM hR h b hb
+  rw [expectimaxT_zero m hv (h+1) b hb.1] at h1 h3
+  refine ⟨h1, ?_⟩
+  rw [← h3]
+  -- qOf over expectimax = qOfT 0 over expectimaxT 0
+  have := expectimaxT_zero m hv (h+1) b hb.1
+  have hq : ∀ a, a < m.A → qOfT m 0 (expectimaxT m 0 h) b a = qOf m (expectimax m h) b a := by
+    intro a haA
+    rw [qOf_eq, qOfT]
+    congr 1
+    rw [← sumTo_mul_left]
+    apply sumTo_congr; intro o ho
+    have hu := updU_nonneg m hv b hb.1 haA ho
+    have hp0 := vsum_nonneg _ _ hu
+    unfold obsTerm
+    simp only []
+    rw [absR_nonneg_eq _ hp0]
+    by_cases hp : vsum m.S (updU m b a o) = 0
+    · rw [if_pos hp, if_pos (le_of_eq hp)]; ring
+    · have : ¬ vsum m.S (updU m b a o) ≤ 0 := fun hle => hp (le_antisymm hle hp0)
+      rw [if_neg hp, if_neg this, expectimaxT_zero m hv h _ (vdiv_nonneg _ _ _ hu hp0)]; ring
+  exact (hq _ h2).symm
+
+/-! ### the excluded region is really wrong: `maxR < 0` (DESIGN §12 #18) -/
+
+/-- one state, one observation, two actions with rewards −1 and −3/2, γ = 1/2 -/
+def cxNeg : Model :=
+  { S := 1, A := 2, O := 1, T := fun _ _ _ => 1, R := fun _ a => if a = 0 then -1 else -3/2, Ob := fun _ _ _ => 1, γ := 1/2 }
+
+/-- **counterexample to the full statement**: with `maxR = −1` (exactly the largest reward, as the header documents) and horizon 3,
+    RTBSS as written returns (action 1, −3/2) while the optimal value is −7/4, attained by action 0 only.
+    Action 1 is pruned (`−3/2 + γ·maxR·2 = −5/2 ≤ −7/4`) and then its *immediate* reward −3/2 beats the running maximum.
+    (Evaluated by kernel reduction — a test on literals, not a general theorem.) -/
+theorem rtbss_negative_maxR_counterexample :
+    RBound cxNeg (-1) ∧ (rtSample cxNeg 0 (-1) 3 #[1]) = (1, -3/2) ∧ expectimax cxNeg 3 #[1] = -7/4 ∧
+    qOf cxNeg (expectimax cxNeg 2) #[1] 1 = -9/4 := by
+  refine ⟨?_, by decide +kernel, by decide +kernel, by decide +kernel⟩
+  intro s a _ _
+  simp only [cxNeg]
+  split <;> norm_num
+
+
+/-! ## the hypotheses are satisfiable by a non-trivial model -/
+
+/-- two states, two actions, two noisy observations -/
+def exM : Model :=
+  { S := 2, A := 2, O := 2, T := fun _ _ _ => 1/2, R := fun s a => if s = a then 1 else -1,
+    Ob := fun s1 _ o => if s1 = o then 3/4 else 1/4, γ := 7/8 }
+
+example : Valid exM := by
+  refine ⟨by decide, by decide, ?_, ?_, ?_, ?_⟩
+  · intro s a s1 _ _ _; norm_num [exM]
+  · intro s a _ _; norm_num [exM, sumTo]
+  · intro s1 a o _ _ _; simp only [exM]; split <;> norm_num
+  · intro s1 a h1 _
+    have : s1 = 0 ∨ s1 = 1 := by simp only [exM] at h1; omega
+    rcases this with rfl | rfl <;> norm_num [exM, sumTo]
+
+example : Sep exM AITB.Gen.equalToleranceSmall := by
+  intro s1 a o _ _ _ h
+  exfalso
+  simp only [exM] at h
+  split at h <;> norm_num [absR, AITB.Gen.equalToleranceSmall] at h
+
+example : RBound exM 1 ∧ (0 : Rat) ≤ 1 ∧ 0 ≤ exM.γ ∧ exM.γ ≤ 1 := by
+  refine ⟨?_, by norm_num, by norm_num [exM], by norm_num [exM]⟩
+  intro s a _ _; simp only [exM]; split <;> norm_num
+
+example : Simplex 2 #[1/4, 3/4] := by
+  refine ⟨?_, by norm_num [sumTo, Vec.get]⟩
+  intro s hs
+  have : s = 0 ∨ s = 1 := by omega
+  rcases this with rfl | rfl <;> norm_num [Vec.get]
+
+/-- test on literals: three exact backups of the example reproduce expectimax at a belief, and RTBSS agrees -/
+example : env 2 (backupIter exM AITB.Gen.equalToleranceSmall 2) #[1/4, 3/4] = expectimax exM 2 #[1/4, 3/4]
+    ∧ (rtSample exM AITB.Gen.equalToleranceSmall 1 2 #[1/4, 3/4]).2 = expectimax exM 2 #[1/4, 3/4] := by
+  constructor <;> decide +kernel
+
 end AITB.POMDP
